@@ -44,6 +44,7 @@ class Ctx:
         self.notes = []
 
     def add(self, rule, site, ok, what='', where='', detail=None):
+        site = site.replace(' ', '_')  # site keys are single tokens (known_findings.txt format)
         self.insts.append(Inst(rule, site, ok, what, where, detail))
         return ok
 
